@@ -243,6 +243,15 @@ pub fn exec_model_to_real(case: &WireCase, tally: &mut Tally) -> Result<(), Fail
             _ => {}
         }
     }
+    // A digest is a map: two entries with the same id are not something an encoder can emit (the
+    // generator makes ids distinct through their ports, which can collide by wrap-around).
+    if let WMsg::Syn { digest, .. } | WMsg::SynAck { digest, .. } = &model {
+        let mut seen = std::collections::HashSet::new();
+        if !digest.iter().all(|d| seen.insert(d.id.clone())) {
+            tally.discard("generator produced a digest with a repeated id");
+            return Ok(());
+        }
+    }
     let (bytes, stats) = encode_msg(&model, case.blocking);
     let expected = match normalise_model(&model) {
         Ok(n) => n,
